@@ -483,3 +483,39 @@ Proof.
   exists (number (pscale p 0)). unfold pfloat. rewrite unit_number_spec. cbn [bind]. split; [reflexivity|].
   split; [apply unit_number_exp|]. intros e He. apply unit_number_at. exact He.
 Qed.
+
+(* ------------------------------------------------------------------ the pinned behaviour, as literal variants of the model
+   (used only by the `_refuted` theorems of Props/C14.v) *)
+(* pinned __hash__: hash((self.number, self.prefix)) — a function of the two FIELDS; hash(Decimal) depends on the value
+   of `number` only, so the key is (normal form of number, prefix) *)
+Definition phash_pinned (p : pfx) : option (Z * Z) * Z := (dnorm (number p), prefix p).
+(* pinned __int__: int(self.number) * 10**self.prefix.value — for a negative prefix 10**prefix is a float, the product is a
+   float and int() raises TypeError (__int__ returned non-int) *)
+Definition pint_pinned (p : pfx) : result Z :=
+  if 0 <=? prefix p then Ok (dtrunc (number p) * pow10 (prefix p)) else Error EOther.
+(* pinned _add: the sum is evaluated in the default context, i.e. rounded to 28 significant digits *)
+Definition padd_raw_pinned (a b : pfx) : pfx :=
+  let r := padd_raw a b in mkP (round_prec 28 (number r)) (prefix r).
+(* pinned comparison operators: round(number, EPSILON) in the default context = pcmp_ctx (Some 28) *)
+
+(* in a context of precision 28, quantize raises as soon as the rounded number needs more than 28 digits *)
+Lemma pcmp_ctx_raises prec o a b e :
+  let s := smaller_prefix a b in
+  0 <= prec -> e <= pexp a -> e <= pexp b -> e <= s - EPSILON ->
+  10 ^ prec * 10 ^ (s - EPSILON - e) <= Z.abs (vat e a) ->
+  pcmp_ctx (Some prec) o a b = inr InvalidOperation.
+Proof.
+  intros s Hp Ha Hb Hs H.
+  pose proof (rkey_spec a b e Ha Hb Hs) as K. cbv zeta in K. fold s in K. unfold rkey in K. fold s in K. pose proof (f_equal fst K) as Ka. cbn [fst] in Ka.
+  clear K. set (D := 10 ^ (s - EPSILON - e)) in *. assert (0 < D) as PD by (apply p10_pos'; lia).
+  assert (10 ^ prec <= Z.abs (dq_int (number (pscale a s)) (- EPSILON))) as B.
+  { rewrite Ka. destruct (Z_le_gt_dec 0 (vat e a)) as [C|C].
+    - assert (10 ^ prec * D <= vat e a) as H' by lia. pose proof (rhe_mono _ _ D PD H') as M. rewrite rhe_exact in M by exact PD. lia.
+    - assert (vat e a <= (- 10 ^ prec) * D) as H' by lia. pose proof (rhe_mono _ _ D PD H') as M. rewrite rhe_exact in M by exact PD. lia. }
+  unfold pcmp_ctx, rounded_to_smaller. fold s.
+  assert (quantize_ctx (Some prec) (number (pscale a s)) (- EPSILON) = inr InvalidOperation) as ->.
+  { unfold quantize_ctx, dquantize. rewrite dint_of_int.
+    pose proof (ndigits_lower _ prec Hp B) as N.
+    destruct (prec <? ndigits (dq_int (number (pscale a s)) (- EPSILON))) eqn:E; [reflexivity|lia]. }
+  reflexivity.
+Qed.
